@@ -23,7 +23,7 @@
  *                          proved invariant elsewhere; gej_set_ge: exact adapter)
  *        RP_STUB_XQUAD  RP_STUB_ISSQUARE  RP_STUB_ADD_GE  RP_STUB_ADD_VAR  RP_STUB_SHA  RP_STUB_PED_SMALL
  *        RP_STUB_PED  RP_STUB_BORRO_VERIFY  RP_STUB_BORRO_SIGN  RP_STUB_SET_GEJ  RP_STUB_ECMULT
- *        RP_STUB_GET_B32  RP_STUB_SCALAR_ALG  RP_STUB_MEMCPY
+ *        RP_STUB_GET_B32  RP_STUB_SCALAR_ALG  RP_STUB_MEMCPY  RP_STUB_MEMSET
  *
  * Ghost logs are WATCH style: the harness fixes a selector (g_*_watch call number, g_*_wp buffer
  * position, g_rp_k array index, g_rp_b byte index) that neither code nor stubs/contracts ever assign;
@@ -174,7 +174,7 @@ __CPROVER_ensures(__CPROVER_return_value == (be256(a) < P_()) && fval(r) == be25
  * ==================================================================================================== */
 #if defined(RP_STUB_READERS) || defined(RP_STUB_XQUAD) || defined(RP_STUB_ISSQUARE) || defined(RP_STUB_ADD_GE) || defined(RP_STUB_ADD_VAR) || \
     defined(RP_STUB_SHA) || defined(RP_STUB_PED_SMALL) || defined(RP_STUB_PED) || defined(RP_STUB_BORRO_VERIFY) || defined(RP_STUB_BORRO_SIGN) || \
-    defined(RP_STUB_SET_GEJ) || defined(RP_STUB_ECMULT) || defined(RP_STUB_GET_B32) || defined(RP_STUB_SCALAR_ALG) || defined(RP_STUB_MEMCPY)
+    defined(RP_STUB_SET_GEJ) || defined(RP_STUB_ECMULT) || defined(RP_STUB_GET_B32) || defined(RP_STUB_SCALAR_ALG) || defined(RP_STUB_MEMCPY) || defined(RP_STUB_MEMSET)
 /* the real definitions first */
 #include "src/field_impl.h"
 #include "src/scalar_impl.h"
@@ -320,12 +320,10 @@ static void rp_stub_gej_add_ge_var(secp256k1_gej *r, const secp256k1_gej *a, con
 #endif
 
 #ifdef RP_STUB_ADD_VAR   /* Jacobian add / double inside pub_expand */
-int g_av_n;
 static void rp_stub_gej_add_var(secp256k1_gej *r, const secp256k1_gej *a, const secp256k1_gej *b, secp256k1_fe *rzr) {
     secp256k1_gej t = nondet_rp_gej();
     RP_PRE(rzr == NULL && rp_gej_ok(a) && rp_gej_ok(b), "gej_add_var operands in representation range");
     __CPROVER_assume(gej_ok(&t));
-    g_av_n++;
     *r = t;
 }
 static void rp_stub_gej_double_var(secp256k1_gej *r, const secp256k1_gej *a, secp256k1_fe *rzr) {
@@ -539,6 +537,15 @@ static void rp_stub_scalar_inverse(secp256k1_scalar *r, const secp256k1_scalar *
 }
 #endif
 
+#ifdef RP_STUB_MEMSET    /* memset with content and frame over-approximated: arbitrary bytes in the whole destination object */
+static void *rp_stub_memset(void *dst, int c, size_t n) {
+    (void)c;
+    RP_PRE(__CPROVER_w_ok(dst, n), "memset destination writable for n bytes");
+    __CPROVER_havoc_object(dst);
+    return dst;
+}
+#endif
+
 #ifdef RP_STUB_MEMCPY    /* memcpy with the frame over-approximated to the whole destination object (DESIGN 2.4) */
 static void *rp_stub_memcpy(void *dst, const void *src, size_t n) {
     RP_PRE(__CPROVER_r_ok(src, n) && __CPROVER_w_ok(dst, n), "memcpy source readable and destination writable for n bytes");
@@ -597,6 +604,9 @@ static void *rp_stub_memcpy(void *dst, const void *src, size_t n) {
 #endif
 #ifdef RP_STUB_MEMCPY
 # define memcpy rp_stub_memcpy
+#endif
+#ifdef RP_STUB_MEMSET
+# define memset rp_stub_memset
 #endif
 #endif /* any stub */
 #endif
